@@ -387,11 +387,9 @@ pub fn explore_c15(unit_seed: u64, tier: Tier) -> UnitReport {
             let cfg = RunCfg {
                 entry: front,
                 gap: g,
-                limit: if rng.chance(1, 3) {
-                    LimitSpec::Unset
-                } else {
-                    *rng.pick(&LIMIT_PALETTE)
-                },
+                // always a finite limit: if the option were (wrongly) accepted the solve
+                // must still poll the simulated clock, so that the read budget bounds it
+                limit: *rng.pick(&LIMIT_PALETTE),
                 sched,
                 budget: budget + 64,
             };
@@ -441,25 +439,27 @@ pub fn c0405_runs(m: &GenModel, rng: &mut Rng, rep: &mut UnitReport) -> Vec<RunC
     rep.evaluations += 1;
     let hangs = matches!(probe.outcome, Outcome::NoProgress { .. });
     let n_reads = probe.clock.reads.max(1);
-    let mut runs = vec![probe_cfg];
+    // the builder front door hands microlp the *linearized* model (bounds tightened by
+    // propagation), which can pivot differently: it gets its own liveness probe
+    let builder_probe_cfg = RunCfg {
+        entry: Entry::BuilderMicrolp,
+        ..probe_cfg
+    };
+    let builder_probe = solvers::run(m, &builder_probe_cfg);
+    rep.evaluations += 1;
+    let builder_hangs = matches!(builder_probe.outcome, Outcome::NoProgress { .. });
+    let mut runs = vec![probe_cfg, builder_probe_cfg];
     if hangs {
         rep.count("probe:no-progress-model(no-limit entry points not called)");
     }
+    if builder_hangs {
+        rep.count("probe:no-progress-through-builder(builder Auto not called)");
+    }
     for e in ALL_ENTRIES {
-        if !e.accepts(m) || e == Entry::MilpWith {
+        if !e.accepts(m) || e.takes_options() {
             continue;
         }
-        if e.takes_options() {
-            runs.push(RunCfg {
-                entry: e,
-                gap: GapSpec::Unset,
-                limit: LimitSpec::HUGE,
-                sched: Sched::Frozen,
-                budget,
-            });
-            continue;
-        }
-        if hangs && e.microlp_backed() {
+        if e.microlp_backed() && (if e.is_builder() { builder_hangs } else { hangs }) {
             continue;
         }
         runs.push(RunCfg::plain(e));
@@ -743,4 +743,24 @@ pub fn explore_c07(unit_seed: u64, _tier: Tier) -> UnitReport {
         "source_feasible": !infeasible,
     }));
     rep
+}
+
+/// JSON description of what a unit would explore (no system-under-test code is run).
+pub fn describe_unit(prop: &str, unit_seed: u64, index: u64) -> String {
+    let mut rng = Rng::new(unit_seed);
+    match prop {
+        "C15" => {
+            let lim = c15_limits(Tier::Quick, &mut rng);
+            let (_, m) = generate::gen_model(&mut rng, &C15_WEIGHTS, &lim);
+            serde_json::to_string(&m).unwrap()
+        }
+        "C04" | "C05" => {
+            let lim = c0405_limits(Tier::Quick, &mut rng);
+            let (_, m) = generate::gen_model(&mut rng, &C0405_WEIGHTS, &lim);
+            serde_json::to_string(&m).unwrap()
+        }
+        "C14" => serde_json::to_string(&tableau_world::gen_case(&mut rng, index).1).unwrap(),
+        "C07" => serde_json::to_string(&bounds_world::gen_src_model(&mut rng).1).unwrap(),
+        _ => String::new(),
+    }
 }
